@@ -16,7 +16,7 @@
  *   Extract{k,eval,resid,ortho,proj,recon,rorth,dmodx,it}             after component k (it = NIPALS iterations, informative)
  *   Finish{varexp[]}                                                  explained variances / 100
  *   Project{err}                                                      PCAScorePredictor(training matrix) vs training scores
- *   Back{err}                                                         PCAIndVarPredictor vs X - scale*residual
+ *   Back{err,repr}                                                    PCAIndVarPredictor vs X - scale*residual, in units of |E0|; repr = one ulp of X in the same units
  *   Abort{rc,why}                                                     child died / iteration budget / watchdog
  *   Dropped{why}                                                      generated input outside the quantifier (not judged)
  */
@@ -218,7 +218,7 @@ static int child(void *arg)
   {
     matrix *bx; initMatrix(&bx);
     PCAIndVarPredictor(m->scores, m->loadings, m->colaverage, m->colscaling, (size_t)npc, bx);
-    ld be = 0;
+    ld be = 0, rp = 0;            /* rp: how well double precision can represent X relative to its preprocessed content (input property, not model output) */
     if((int)bx->row != n || (int)bx->col != c) be = ss0;
     else for(int j = 0; j < c; j++){
       double sc = (m->colscaling->size > (size_t)j) ? m->colscaling->data[j] : 1.0;
@@ -227,10 +227,12 @@ static int child(void *arg)
         ld lhs = (ld)x->data[i][j] - bx->data[i][j];
         ld e = zeroed ? (lhs - Edir[i * c + j] * sc) : (lhs / sc - Edir[i * c + j]);
         be += e * e;
+        ld u = 2.220446049250313e-16L * fabsl((ld)x->data[i][j]) / (zeroed ? 1.0L : fabsl((ld)sc));
+        rp += u * u;
         if(getenv("C01_DEBUG") && fabsl(e) > 1e-6) fprintf(stderr, "back i=%d j=%d x=%.17g bx=%.17g sc=%.17g avg=%.17g Edir=%.6Lg e=%.6Lg\n", i, j, x->data[i][j], bx->data[i][j], sc, m->colaverage->data[j], Edir[i * c + j], e);
       }
     }
-    VRT_EMIT("{\"e\":\"Back\",\"err\":%ld}", vq12(sqrt((double)(be / ss0))));
+    VRT_EMIT("{\"e\":\"Back\",\"err\":%ld,\"repr\":%ld}", vq12(sqrt((double)(be / ss0))), vq12(sqrt((double)(rp / ss0))));
     DelMatrix(&bx);
   }
   free(Erec); free(Edir);
